@@ -27,6 +27,13 @@ PLANNED = {
 }
 
 CLAIMS = {
+ 'C20': {
+  'engine': 'aggsim',
+  'technique': 'deterministic simulation of arrival order: the real aggregate UDF objects are stepped by the simulator in enumerated/seeded permutations with interleaved groups; end to end, the simulator chooses the physical row order, index and UNION ALL order seen by SQLite; oracle = the documented definition of each built-in',
+  'text': 'Seeded search over row multisets and arrival orders (all permutations for small groups) for the aggregates, and over small argument domains for the scalar built-ins; evidence over the sampled workloads, not a proof. Only the aggregate half of the property has a schedule to simulate; the scalar built-ins are pure functions checked as payload of the same runs.',
+  'note': 'Trusted: the ~120-line table of defined meanings in lsim/aggsim.py (cells whose meaning the documentation does not fix for SQLite are excluded and listed in the evidence), SQLite, json.',
+  'design_ref': 'DESIGN.md section 5 (C20)',
+ },
  'C03': {
   'engine': 'recsim',
   'technique': 'deterministic simulation with fault injection: generated recursive programs run through the real compiler, Concertina and SQLite under seeded execution schedules (stale generation tables, aborted/failed then re-run, several predicates at once); oracle = Jacobi T^(depth+1) and least fixpoint from an independent reference evaluator',
